@@ -339,6 +339,58 @@ def check_action(case, out, versions):
                     "features": {"why": "action", "expected_reject": want_v == "REJECT"}})
 
 
+def check_shared_action(case, out, versions):
+    """family (h): ONE action object registered for the bare no_op call (config c1), the bare opt_in call (c2) and,
+    optionally, as the clear-state action.  Every slot must behave as if it had its own copy."""
+    cnt, oc_ = out["counters"], out["outcomes"]
+    c1, c2, clear_shared, kind = case["shared"]
+    for ver in versions:
+        if kind == "seq":
+            action = pt.Seq(pt.Log(pt.Bytes("S")), pt.Approve())
+        elif kind == "noreturn":
+            action = pt.Log(pt.Bytes("S"))
+        else:
+            @pt.Subroutine(pt.TealType.none)
+            def shared_action():
+                return pt.Log(pt.Bytes("S"))
+            action = shared_action
+        try:
+            router = pt.Router("r", pt.BareCallActions(no_op=pt.OnCompleteAction(action=action, call_config=CC[c1]),
+                                                       opt_in=pt.OnCompleteAction(action=action, call_config=CC[c2])),
+                               clear_state=action if clear_shared else pt.Approve())
+            router.add_method_handler(make_method("m0", "Mm0"), method_config=pt.MethodConfig(no_op=pt.CallConfig.CALL))
+            approval, clear, _c = router.compile_program(version=ver)
+        except Exception as e:
+            out["violations"].append({"driver": "shared-action", "size": 2, "title": "v%d router with a shared action does not build: %r (%r)" % (ver, e, case),
+                                      "case": case, "version": ver, "features": {"why": "rejected"}})
+            continue
+        pa, pc = asm.assemble(approval), asm.assemble(clear)
+        for oc, cc in ((0, c1), (1, c2)):
+            for app_id in (0, 7):
+                txn = interp.default_txn(ApplicationArgs=[], OnCompletion=oc, ApplicationID=app_id)
+                res = interp.run(pa, interp.Ctx(mode="A", group=[txn]), fuel=20000)
+                cnt["traces_validated"] = cnt.get("traces_validated", 0) + 1
+                allowed = bool(cc & (CREATE if app_id == 0 else CALL))
+                ok = (res.verdict == "APPROVE" and res.logs == [b"S"]) if allowed else res.verdict in ("REJECT", "FAIL")
+                oc_["dispatched" if allowed else "rejected"] = oc_.get("dispatched" if allowed else "rejected", 0) + 1
+                if not ok:
+                    out["violations"].append({
+                        "driver": "shared-action", "size": 2,
+                        "title": "v%d shared %s action (no_op=%d, opt_in=%d, clear shared=%s): bare call oc=%d create=%s expected %s, got %s logs=%r" % (
+                            ver, kind, c1, c2, clear_shared, oc, app_id == 0, "approval" if allowed else "rejection", res.verdict, res.logs),
+                        "case": case, "version": ver, "teal": approval, "features": {"why": "dispatch", "expected_reject": not allowed}})
+        txn = interp.default_txn(ApplicationArgs=[], OnCompletion=3, ApplicationID=7)
+        res = interp.run(pc, interp.Ctx(mode="A", group=[txn]), fuel=20000)
+        cnt["traces_validated"] = cnt.get("traces_validated", 0) + 1
+        want_logs = [b"S"] if clear_shared else []
+        if res.verdict != "APPROVE" or res.logs != want_logs:
+            out["violations"].append({
+                "driver": "shared-action", "size": 2,
+                "title": "v%d shared %s action (no_op=%d, opt_in=%d, clear shared=%s): clear-state program gave %s logs=%r" % (
+                    ver, kind, c1, c2, clear_shared, res.verdict, res.logs),
+                "case": case, "version": ver, "teal": clear, "features": {"why": "clear"}})
+
+
 _COLLISION = None
 
 
@@ -394,6 +446,11 @@ def check_collision(case, out, versions):
 def _worker(items, base):
     out = {"counters": {}, "outcomes": {}, "violations": [], "samples": []}
     for case in items:
+        if "shared" in case:
+            check_shared_action(case, out, _VERSIONS)
+            out["counters"]["states"] = out["counters"].get("states", 0) + 1
+            out["counters"]["transitions"] = out["counters"].get("transitions", 0) + 5
+            continue
         if "action" in case:
             check_action(case, out, _VERSIONS)
             out["counters"]["states"] = out["counters"].get("states", 0) + 1
@@ -462,6 +519,12 @@ def router_cases(tier):
     for k in ACTION_KINDS:
         for place in ("bare", "clear"):
             cases.append({"action": k, "place": place})
+    # (h) one action object shared by several registration slots
+    for c1 in (CALL, CREATE, ALL):
+        for c2 in (CALL, CREATE, ALL):
+            for clear_shared in (False, True):
+                for kind in ("seq", "noreturn", "sub"):
+                    cases.append({"shared": [c1, c2, clear_shared, kind]})
     return cases
 
 
@@ -490,7 +553,9 @@ def run(tier):
 
 def replay(case):
     out = {"counters": {}, "outcomes": {}, "violations": [], "samples": []}
-    if "action" in case["case"]:
+    if "shared" in case["case"]:
+        check_shared_action(case["case"], out, (case["version"],))
+    elif "action" in case["case"]:
         check_action(case["case"], out, (case["version"],))
     elif "collision" in case["case"]:
         check_collision(case["case"], out, (case["version"],))
